@@ -725,8 +725,14 @@ class FakeKube:
             if resp._q is not None:
                 resp.close()
             raise aiohttp.ClientConnectionError("response lost")
-        for _ in range(self.post_yields):
-            await asyncio.sleep(0)
+        try:
+            for _ in range(self.post_yields):
+                await asyncio.sleep(0)
+        except asyncio.CancelledError:
+            # the client gave up while the response was on its way: the connection is gone, so is the stream behind it
+            if resp._q is not None:
+                resp.close()
+            raise
         return resp
 
     _OBJ_RE = re.compile(r'/(?:api/v1|apis/(?P<g>[^/]+)/(?P<v>[^/]+))(?:/namespaces/(?P<ns>[^/]+))?/(?P<pl>[^/]+)'
